@@ -12,5 +12,16 @@ if ! cargo build --release --offline >"$LOG" 2>&1; then
     rm -f "$LOG"
     exit 2
 fi
+if [ "${1:-}" = "C19" ]; then
+    # the same driver source against three fatfs feature sets
+    for v in "alloc,unicode:A" "unicode:B" "alloc:C"; do
+        if ! (cd ../featdrv && cargo build --release --offline --features "${v%%:*}" --target-dir "target/${v##*:}") >"$LOG" 2>&1; then
+            echo "BUILD FAILED (featdrv ${v##*:}: fatfs does not compile with that feature set); see below" >&2
+            tail -40 "$LOG" >&2
+            rm -f "$LOG"
+            exit 2
+        fi
+    done
+fi
 rm -f "$LOG"
 exec ./target/release/fv "$@"
